@@ -617,6 +617,17 @@ def t_dot(args, kw, node):
     return matmul(args[0], args[1])
 
 
+def t_einsum(args, kw, node):
+    """np.einsum(subscripts, *operands): a sum of products with one factor from every operand"""
+    ops = [a for a in args[1:]]
+    if not ops:
+        return Unk("einsum")
+    r = num(ops[0])
+    for o in ops[1:]:
+        r = mul(r, o)
+    return withrank(r, None)
+
+
 def t_kron(args, kw, node):
     r = mul(args[0], args[1])
     return withrank(r, 2)
@@ -1067,6 +1078,12 @@ NP = {
     "fft.ifft": t_fft, "fft.irfft": t_fft, "fft.rfft": t_fft, "fft.fft": t_fft, "seterr": t_const,
     "newaxis": None,
     "hypot": lambda a, k, n: add(a[0], a[1], n),
+    # element selections keep the degree of the array they select from; einsum / tensordot are multilinear
+    "take_along_axis": lambda a, k, n: withrank(_a(a), getattr(_a(a), "rank", None)), "take": lambda a, k, n: withrank(_a(a), None),
+    "compress": lambda a, k, n: withrank(num(a[1]) if len(a) > 1 else ANY, None), "broadcast_to": t_same, "triu": t_same, "tril": t_same,
+    "atleast_1d": t_same, "flatnonzero": lambda a, k, n: Deg({()}, 1), "isin": t_boolarr, "in1d": t_boolarr, "count_nonzero": lambda a, k, n: Deg({()}, 0),
+    "einsum": lambda a, k, n: t_einsum(a, k, n), "tensordot": lambda a, k, n: withrank(mul(a[0], a[1]), None), "inner": t_dot, "vdot": t_dot,
+    "result_type": t_const, "promote_types": t_const, "ndindex": t_range, "nanargmin": t_index,
     "lib.stride_tricks.sliding_window_view": lambda a, k, n: t_expand([a[0]], {}, n),
 }
 EXTF = {
@@ -1761,10 +1778,26 @@ def ev(e, fr):
         return call(e, fr)
     if isinstance(e, ast.Subscript):
         return subscript(ev(e.value, fr), ev_index(e.slice, fr), e)
-    if isinstance(e, ast.Tuple):
-        return Tup([ev(x, fr) for x in e.elts])
-    if isinstance(e, ast.List):
-        return Lst([ev(x, fr) for x in e.elts])
+    if isinstance(e, (ast.Tuple, ast.List)):
+        items, tail = [], None
+        for x in e.elts:
+            if isinstance(x, ast.Starred):
+                v = ev(x.value, fr)
+                if isinstance(v, (Tup, Lst)) and getattr(v, "tail", None) is None and tail is None:
+                    items.extend(v.items)          # (a, *(b, c)) is (a, b, c)
+                    continue
+                its = (list(v.items) + ([v.tail] if getattr(v, "tail", None) is not None else [])) if isinstance(v, (Tup, Lst)) else [elem(v)]
+                for y in its:
+                    tail = y if tail is None else join(tail, y)
+                continue
+            v = ev(x, fr)
+            if tail is not None:
+                tail = join(tail, v)
+            else:
+                items.append(v)
+        if tail is not None:
+            return Lst(items, tail)
+        return Tup(items) if isinstance(e, ast.Tuple) else Lst(items)
     if isinstance(e, ast.Set):
         return Lst([ev(x, fr) for x in e.elts])
     if isinstance(e, ast.Dict):
